@@ -100,8 +100,8 @@ def inBBox (rs : Poly) (c : P) (scale : Rat × Rat) : Bool :=
     decide (x0 - tx ≤ c.x) && decide (c.x ≤ x1 + tx) && decide (y0 - ty ≤ c.y) && decide (c.y ≤ y1 + ty)
 
 /-- `-offset:far` when the polygon lies further from the origin than 2^12 times its own extent: the
-centroid formula cancels catastrophically there (relative error ≈ 2^-53 · (offset/extent)²); known
-finding, see notes/C03.md "Finding 9" -/
+centroid sums formed in absolute coordinates cancel catastrophically there (relative error ≈
+2^-53 · (offset/extent)²; finding 9, fixed by forming them relative to the first vertex) -/
 def offTag (p : Poly) : String :=
   match bbox p with
   | none => ""
@@ -109,6 +109,35 @@ def offTag (p : Poly) : String :=
     let ext := max (x1 - x0) (y1 - y0)
     let m := max (maxAbsX p) (maxAbsY p)
     if 0 < ext && m ≥ ext * (2:Rat)^12 then "-offset:far" else ""
+
+/-- what the tolerance of one centroid coordinate is measured against: `m` the largest |coordinate| on
+the axis, `ext` the extent of the bounding box on the axis, `off` its lower end -/
+structure AxisScale where
+  m : Rat
+  ext : Rat
+  off : Rat
+
+/-- per-axis tolerance scales of a centroid -/
+def centScales (p : Poly) : AxisScale × AxisScale :=
+  match bbox p with
+  | none => (⟨maxAbsX p, 0, 0⟩, ⟨maxAbsY p, 0, 0⟩)
+  | some (x0, x1, y0, y1) => (⟨maxAbsX p, x1 - x0, x0⟩, ⟨maxAbsY p, y1 - y0, y0⟩)
+
+/-- a centroid coordinate `a` against the wanted `b`: within 1e-9 of the EXTENT of the polygon on that
+axis (plus 2^-20·1e-9 ≈ 8 ulp of the largest |coordinate|: the result is a float64 near the offset), or of
+the distance of `b` from the polygon when that is larger — never more than the former tolerance
+1e-9 · max(|b|, largest |coordinate|).  A polygon far from the origin relative to its size is judged by
+its size, not by its offset. -/
+def closeC (a b : Rat) (s : AxisScale) : Bool :=
+  decide (absR (a - b) ≤ eps * min (max (absR b) s.m) (max (absR (b - s.off)) (s.ext + s.m / (2:Rat)^20)))
+
+def fvAgreesC (impl : FVal) (m : FQ) (s : AxisScale) : Bool :=
+  match impl, m with
+  | .fin a, .fin b => closeC a b s
+  | .pinf, .pinf => true
+  | .ninf, .ninf => true
+  | .nan, .nan => true
+  | _, _ => false
 
 /-- parse `ok hx hy` / `panic …` / `err` -/
 inductive PRes where
@@ -126,16 +155,16 @@ def showPRes : PRes → String
 
 /-- implementation centroid vs model centroid; the tolerance of each coordinate is relative to the
 largest |coordinate| on ITS axis (`scale = (max |x|, max |y|)`) -/
-def centAgrees (impl : PRes) (m : Except Fault (FQ × FQ)) (scale : Rat × Rat) : Bool :=
+def centAgrees (impl : PRes) (m : Except Fault (FQ × FQ)) (scale : AxisScale × AxisScale) : Bool :=
   match impl, m with
-  | .pt x y, .ok (mx, my) => fvAgrees false x mx scale.1 && fvAgrees false y my scale.2
+  | .pt x y, .ok (mx, my) => fvAgreesC x mx scale.1 && fvAgreesC y my scale.2
   | .panic, .error _ => true
   | _, _ => false
 
 /-- implementation centroid vs a spec point -/
-def centIs (impl : PRes) (c : P) (scale : Rat × Rat) : Bool :=
+def centIs (impl : PRes) (c : P) (scale : AxisScale × AxisScale) : Bool :=
   match impl with
-  | .pt (.fin x) (.fin y) => close x c.x scale.1 && close y c.y scale.2
+  | .pt (.fin x) (.fin y) => closeC x c.x scale.1 && closeC y c.y scale.2
   | _ => false
 
 def showCent : Except Fault (FQ × FQ) → String
@@ -221,7 +250,8 @@ def judgeCent (tag : String) (p : Poly) (rhs : Tok) : String :=
   let cls := s!"cent-{tag}-{match order with | some (_, true) => "valid-touch" | some _ => "valid" | none => "invalid"}-{polyTag p}{magTag p}{offTag p}"
   let r1 := pRes (rhs.takeWhile (· ≠ "|"))
   let r2 := pRes (rhs.drop ((rhs.takeWhile (· ≠ "|")).length + 1))
-  let scale := (maxAbsX p, maxAbsY p)
+  let bscale := (maxAbsX p, maxAbsY p)
+  let scale := centScales p
   let m := polygonCentroid p
   let mo : Except Fault (FQ × FQ) := .ok (opCentroid p)
   let wantS := Spec.centroidSigned c
@@ -229,7 +259,7 @@ def judgeCent (tag : String) (p : Poly) (rhs : Tok) : String :=
     s!"SPEC {cls} Centroid={showPRes r1} but signed-area-weighted centroid={wantS.x},{wantS.y}"
   else if inStatement && Spec.Alternating c && !centIs r1 (Spec.centroid c) scale then
     s!"SPEC {cls} Centroid={showPRes r1} but area-weighted centroid={(Spec.centroid c).x},{(Spec.centroid c).y}"
-  else if inStatement && !inBBox c wantS scale then
+  else if inStatement && !inBBox c wantS bscale then
     s!"SPEC {cls} Centroid={showPRes r1} outside the bounding box"
   else if inStatement && !centIs r2 wantS scale then
     s!"SPEC {cls} op.Centroid={showPRes r2} but signed-area-weighted centroid={wantS.x},{wantS.y}"
@@ -247,12 +277,13 @@ def judgeMCent (tag : String) (mp : MPoly) (rhs : Tok) : String :=
   let inStatement := valid && closed
   let cls := s!"mcent-{tag}-{if valid then (if touch then "valid-touch" else "valid") else "invalid"}-{mpolyTag mp}{magTag mp.flatten}{offTag mp.flatten}"
   let r := pRes rhs
-  let scale := (maxAbsX mp.flatten, maxAbsY mp.flatten)
+  let bscale := (maxAbsX mp.flatten, maxAbsY mp.flatten)
+  let scale := centScales mp.flatten
   let m : Except Fault (FQ × FQ) := .ok (multiPolygonCentroid mp)
   let want := Spec.mcentroid c
   if inStatement && !centIs r want scale then
     s!"SPEC {cls} Centroid={showPRes r} but area-weighted centroid={want.x},{want.y}"
-  else if inStatement && !inBBox c.flatten want scale then
+  else if inStatement && !inBBox c.flatten want bscale then
     s!"SPEC {cls} Centroid={showPRes r} outside the bounding box"
   else if !centAgrees r m scale then s!"DIFF {cls} Centroid impl={showPRes r} model={showCent m}"
   else s!"OK {cls}"
